@@ -13,8 +13,8 @@ PROPS = {}
 def prop(pid, **kw):
     PROPS[pid] = kw
 
-prop("C01",
-     rule="positions: biased random playouts, well-formed constructed boards (stacks to 64), testdata games; moves: generated moves + malformed stream (off-board/int8-range coordinates, all type codes, damaged slide words). Every distinct (position, move) op line counts; trivial = none (both accepted and rejected moves are claims of the property)",
-     assumptions=["stacks never exceed 64 pieces (documented representation limit)", "custom piece counts <= 255 (reserve counters are bytes)"])
-prop("C02", rule="positions as C01 plus road-shape boards (random edge-to-edge walks, broken by wall/enemy/hole, optional second road); distinct op lines", assumptions=[])
-prop("C03", rule="positions as C01; allmoves (sorted list equality) and legal-set equality with the rule book; distinct op lines", assumptions=[])
+
+import os, glob
+_d = os.path.join(os.path.dirname(os.path.abspath(__file__)), "props.d")
+for _f in sorted(glob.glob(os.path.join(_d, "*.py"))):
+    exec(compile(open(_f).read(), _f, "exec"), {"prop": prop, "PROPS": PROPS})
